@@ -225,8 +225,28 @@ func runC18(c *Ctx) []Obligation {
 			Assume: []Lit{T(`^nonnil\(invoke x/auth/exported\.Account\.SetCoins\(`)},
 			Target: CallTo(`SetAccount\(`), Why: "a rejected balance is not persisted"},
 	}
+	// the transfer itself: one debit of amt from the sender, then one credit of the same amt to the
+	// recipient, each step reading the balance it changes inside itself (so a self-send sees its own debit)
+	rows = append(rows,
+		Row{Prop: P, ID: "authSend.debits-from", Fn: fnSend,
+			Barrier: []string{`^` + kA + `SubtractCoins\(k, ctx, fromAddr, amt\)$`},
+			Target:  Success(), Why: "every successful send debited amt from the sender"},
+		Row{Prop: P, ID: "authSend.credits-to", Fn: fnSend,
+			Barrier: []string{`^` + kA + `AddCoins\(k, ctx, toAddr, amt\)$`},
+			Target:  Success(), Why: "and credited the same amt to the recipient"},
+		Row{Prop: P, ID: "authSend.debit-error-gates-credit", Fn: fnSend,
+			Assume: []Lit{T(`^nonnil\(` + kA + `SubtractCoins\(k, ctx, fromAddr, amt\)#1\)$`)},
+			Target: CallTo(`AddCoins\(|SetCoins\(|SetAccount\(`), Why: "a failed debit credits nothing"},
+		Row{Prop: P, ID: "authSend.only-one-debit-credit", Fn: fnSend,
+			Target: CallTo(`SubtractCoins\(|AddCoins\(|SetCoins\(|SetAccount\(`).Except(`^` + kA + `(SubtractCoins\(k, ctx, fromAddr, amt\)|AddCoins\(k, ctx, toAddr, amt\))$`),
+			Why:    "exactly one debit and one credit, no direct balance write"},
+		Row{Prop: P, ID: "authSend.no-balance-read-of-its-own", Fn: fnSend,
+			Target: CallTo(`GetCoins\(|GetAccount\(|SpendableCoins\(`),
+			Why:    "the transfer holds no balance it read itself: the debit and the credit each read the balance they change at the moment they change it, so sender == recipient nets to zero"},
+	)
 	out := c.Rows(rows)
 	out = append(out, c.safeSubUsed(P), c.setCoinsAccountOfAddr(P))
+	out = append(out, c.whoMayCall(P, "balance.writers", fnSetCoins, []string{kA + `(AddCoins|SubtractCoins)`}, "balances are overwritten only by the read-modify-write steps AddCoins and SubtractCoins"))
 	return out
 }
 
